@@ -485,12 +485,14 @@ fn stalled_case(kind: u8, queued_kb: usize, res: &mut CaseResult) {
             // the server closes, then the stream ends while our CloseOk still cannot be written
             h.inject(conn_close_frame(320, "going down"));
             h.set_end(InEnd::Eof);
-            vec!["UnexpectedSocketClose".into(), "ServerClosedConnection(320,\"going down\")".into()]
+            // the root cause is the server's close; that the stream ends behind it is what a
+            // broker going down looks like
+            vec!["ServerClosedConnection(320,\"going down\")".into()]
         }
         3 => {
             h.inject(conn_close_frame(320, "going down"));
             h.set_end(InEnd::Err(ErrorKind::ConnectionReset));
-            vec!["IoErrorReadingSocket(ConnectionReset)".into(), "ServerClosedConnection(320,\"going down\")".into()]
+            vec!["ServerClosedConnection(320,\"going down\")".into()]
         }
         _ => {
             // a write error after the stall
